@@ -144,7 +144,7 @@ func c07r2(p *Prog, r *Reporter) {
 				if !okf || fld != "Archetypes" {
 					continue
 				}
-				short := sc.Name()
+				short := cname(sc)
 				if i := strings.IndexByte(short, '['); i > 0 {
 					short = short[:i]
 				}
